@@ -230,6 +230,7 @@ class Mgr:
         self.tasks = {}              # wid -> task
         self.escaped = []            # exceptions that escaped on_pdu (event index, type name)
         self.peer_ok = True          # the peer has followed the rules under which the property is claimed
+        self.unmodelled = False      # an interleaving the one-step-per-event model does not represent
         for psm in cfg.get('le', []):
             self.mgr.create_le_credit_based_server(
                 l2cap.LeCreditBasedChannelSpec(psm=psm, mtu=MTU, mps=MPS, max_credits=SERVER_CREDITS))
@@ -318,12 +319,8 @@ class Mgr:
         k = a[0]
         if k == 'DiscReq':
             c = chans.get(a[2])
-            return not (c is not None and is_le(c) and c.state in (LS.INIT, LS.CONNECTING))
-        if k == 'DiscRsp':
-            c = chans.get(a[3])
-            if c is not None and not is_le(c) and a[2] == c.destination_cid and a[3] == c.source_cid:
-                return c.state == CS.WAIT_DISCONNECT
-            return True
+            return not (c is not None and is_le(c) and c.state in (LS.INIT, LS.CONNECTING)
+                        and a[3] == c.destination_cid)
         if k == 'LeRsp':
             reqs = m.le_coc_requests.get(h)
             r = reqs.get(a[1]) if isinstance(reqs, dict) else None
@@ -411,6 +408,7 @@ class World:
         self.steps = 0
         self.violations = []            # (check, description)
         self.skipped = 0
+        self.unsettled = {}             # manager -> a frame was handled and the loop not run since
         # False once a peer stops following the protocol (unilateral abort, cancelled call, foreign
         # frames): the peer may then reuse a CID it still has open here, and the table filed by the
         # peer's CIDs can only hold one of the two channels
@@ -419,6 +417,7 @@ class World:
     async def settle(self):
         for _ in range(SETTLE):
             await asyncio.sleep(0)
+        self.unsettled = {}
 
     def collect(self, m):
         """route what manager m emitted during the event just executed"""
@@ -461,6 +460,8 @@ class World:
         if self.mgrs[m].ev_recv(h, cid, pdu):
             if settle or failing:
                 await self.settle()
+            else:
+                self.unsettled[m] = True
             self.collect(m)
         else:
             await self.settle()
@@ -540,6 +541,10 @@ class World:
                 self.skipped += 1
                 await self.settle()
                 return
+            if self.unsettled.get(m):
+                # the task is cancelled between a response and its own continuation: the model
+                # takes both in one step, so this manager is only checked by the oracle
+                self.mgrs[m].unmodelled = True
             self.mgrs[m].ev_cancel(w)
             await self.after_event(m)
         elif k == 'deliver':
@@ -827,9 +832,9 @@ async def gen_and_run(rng, topo, ltypes, length, allow_abort=True, down_weight=8
             m = rng.choice(ends)[0]
             n = len(w.mgrs[m].chans)
             if n and allow_abort:
-                u = rng.below(n)
-                if _abortable(w.mgrs[m].chans[u]):
-                    op = ['abort', m, u]
+                op = ['abort', m, rng.below(n)]
+                if rng.chance(1, 3) and w.nw[m]:
+                    op = ['cancel', m, rng.below(w.nw[m])]
         elif r < 86:
             m = rng.choice(ends)[0]
             n = len(w.mgrs[m].chans)
@@ -964,6 +969,8 @@ def event_coq(e):
         return f'EClose {e[2]}'
     if k == 'Abort':
         return f'EAbort {e[1]}'
+    if k == 'Cancel':
+        return f'ECancel {e[1]}'
     if k == 'Write':
         return f'EWrite {e[1]} {e[2]}'
     if k == 'Grant':
@@ -1008,8 +1015,6 @@ def model_result_canon(res):
 def impl_supported(events):
     """events the model has a constructor for"""
     for e in events:
-        if e[0] == 'Cancel':
-            return False
         if e[0] == 'Recv' and e[2][0] == 'Other':
             return False
     return True
@@ -1028,7 +1033,8 @@ class Case:
 
 def _snapshot(case, w):
     case.violations = list(w.violations)
-    case.mgr_results = [(M.cfg, list(M.events), [list(o) for o in M.outs], M.obs(), list(M.escaped)) for M in w.mgrs]
+    case.mgr_results = [(M.cfg, [] if M.unmodelled else list(M.events), [list(o) for o in M.outs], M.obs(),
+                         list(M.escaped)) for M in w.mgrs]
     case.skipped = w.skipped
     case.cooperative = w.cooperative
 
